@@ -519,9 +519,12 @@ def gen_state(cls, rng):
         iv = pos_time(rng, (300.0,))
         c = nonneg_time(rng, (iv,))
         tl = t_choices(rng, (iv, c))
-        if rng.random() < 0.2:   # the "over" states the tick loop can leave behind: time_left < counter <= 0
+        r = rng.random()
+        if r < 0.2:     # the "over" states the tick loop can leave behind: time_left < counter <= 0
             c = -nonneg_time(rng, (iv,))
             tl = c - pos_time(rng)
+        elif r < 0.3:   # a negative counter on a running key-down (outside `Inv`; the model still follows the code)
+            c = -nonneg_time(rng, (iv,))
         return {"interval": iv, "interval_counter": c, "time_left": tl}
     if cls == "DOT":
         cur = {}
@@ -538,7 +541,7 @@ def gen_state(cls, rng):
         pen = nonneg_time(rng, (120.0,))
         tl = t_choices(rng, (iv, 1000.0))
         c = t_choices(rng, (iv,))
-        if tl < 0 and c <= 0:
+        if tl < 0 and c <= 0 and rng.random() < 0.7:   # mostly inside `Inv`; the model follows the code outside too
             c = pos_time(rng, (iv,))
         mx = rng.randint(0, 8)
         return {"interval_counter": c, "interval": iv, "time_left": tl, "count": rng.randint(0, mx),
@@ -799,14 +802,14 @@ def main(ck: Check):
 
     # ---- (b) the property on the real code, in the pool, while the Lean side runs afterwards
     variants = [0, 1] if quick else [0, 1, 2]
-    plans_per = 4 if quick else 8
+    plans_per = 4 if quick else 6
     work = [(job, v, pi, ck.seed, ck.tier) for job in JOBS for v in variants for pi in range(plans_per)]
     evaluations = states = nontrivial = multi = 0
     by_class: dict = {}
     entity_seen: dict = {}
     samples = []
     per_class_reported: dict = {}
-    for args, out in pmap(explore_unit, work, ck.budget_s * (0.55 if quick else 0.8)):
+    for args, out in pmap(explore_unit, work, ck.budget_s * (0.55 if quick else 0.75)):
         if args is None:
             ck.notes.append(f"budget reached: {out}")
             if out["done"] < max(8, out["total"] // 2):
